@@ -1,5 +1,6 @@
 //! One module per group of properties.
 
+pub mod dynamic;
 pub mod static_eval;
 
 use crate::report::Ctx;
@@ -13,6 +14,7 @@ pub fn run(ctx: &mut Ctx, prop: &str) -> bool {
         "C03" => static_eval::run(ctx, static_eval::Prop::C03),
         "C04" => static_eval::run(ctx, static_eval::Prop::C04),
         "C07" => static_eval::run(ctx, static_eval::Prop::C07),
+        "C08" | "C09" => dynamic::run(ctx, prop),
         _ => return false,
     }
     true
@@ -25,6 +27,7 @@ pub fn replay(ctx: &mut Ctx, prop: &str, case: &Value, detail: &Value) -> Result
         "C03" => static_eval::replay(ctx, static_eval::Prop::C03, case, detail),
         "C04" => static_eval::replay(ctx, static_eval::Prop::C04, case, detail),
         "C07" => static_eval::replay(ctx, static_eval::Prop::C07, case, detail),
+        "C08" | "C09" => dynamic::replay(ctx, prop, case),
         _ => Err(format!("unknown property {}", prop)),
     }
 }
